@@ -20,6 +20,8 @@ func init() {
 	register(&Rule{ID: "C13.R8", Prop: "C13", Floor: 1, Doc: "ancestor discovery iterates its growing worklist to a fixpoint", Run: c13r8})
 	register(&Rule{ID: "C13.R6", Prop: "C13", Floor: 1, Doc: "the proof updater skips ephemeral elements before range-checking leaf indices", Run: ephemeralSkipped})
 	register(&Rule{ID: "C13.R9", Prop: "C13", Floor: 1, Doc: "the reorg-path bound limits the whole path: one comparison of the bound with the lengths of both the revert and the apply list", Run: c13r9})
+	register(&Rule{ID: "C13.R11", Prop: "C13", Floor: 4, Doc: "element pointers handed to the proof / ephemeral-element updaters point into the pooled transaction, never into a loop copy (same check as C05.R7)", Run: c05r7})
+	register(&Rule{ID: "C13.R12", Prop: "C13", Floor: 1, Doc: "a rebase between two chain indices is skipped only behind the whole-value equality of the two (not their heights)", Run: c13r12})
 	register(&Rule{ID: "C13.R10", Prop: "C13", Floor: 8, Doc: "ids derived from a transaction by position (output, claim, contract ids) use positions of the list they belong to", Run: func(c *Ctx) { derivedIDDomains(c, "chain") }})
 	register(&Rule{ID: "C13.R5", Prop: "C13", Floor: 2, Doc: "set assembly discovers parents in a revalidated pool", Run: func(c *Ctx) {
 		// the parent-discovery helper: unexported Manager method returning a map keyed by Hash256
@@ -772,5 +774,97 @@ func derivedIDDomains(c *Ctx, pkg string) {
 				}
 			}
 		}
+	}
+}
+
+// c13r12: a rebase between two chain indices may be skipped only when the indices are *equal* — same height and same
+// id. Two indices at the same height on different forks need the full revert-and-apply walk; a shortcut that compares
+// heights only hands the set back with the source fork's proofs and no error. Every success return of a function
+// taking two chain indices that is not behind the call doing the work (a callee that is given both) must lie behind
+// the whole-value equality of the two.
+func c13r12(c *Ctx) {
+	n := 0
+	for _, f := range c.P.PkgFuncs("chain") {
+		if f.Type.Params == nil || f.Type.Results == nil {
+			continue
+		}
+		var idx []types.Object
+		for _, fld := range f.Type.Params.List {
+			for _, nm := range fld.Names {
+				if o := f.Info().Defs[nm]; o != nil && ir.IsNamed(o.Type(), ir.PkgPath("types"), "ChainIndex") {
+					idx = append(idx, o)
+				}
+			}
+		}
+		if len(idx) != 2 {
+			continue
+		}
+		g := f.Graph()
+		// the calls that are handed both indices
+		worker := func(nd *cfgx.Node) bool {
+			for _, call := range f.NodeCalls(nd) {
+				has := [2]bool{}
+				for _, a := range call.Expr.Args {
+					for i, o := range idx {
+						if f.ObjOf(a) == o {
+							has[i] = true
+						}
+					}
+				}
+				if has[0] && has[1] {
+					return true
+				}
+			}
+			return false
+		}
+		hasWorker := false
+		for _, nd := range g.Nodes {
+			if worker(nd) {
+				hasWorker = true
+			}
+		}
+		if !hasWorker {
+			continue
+		}
+		var eq []*cfgx.Edge
+		for _, m := range g.Nodes {
+			if m.Block == nil || m.Block.Cond != m.AST || len(m.Succs) != 2 {
+				continue
+			}
+			be, ok := ast.Unparen(m.AST.(ast.Expr)).(*ast.BinaryExpr)
+			if !ok || (be.Op != token.EQL && be.Op != token.NEQ) {
+				continue
+			}
+			a, b := f.ObjOf(be.X), f.ObjOf(be.Y)
+			if !((a == idx[0] && b == idx[1]) || (a == idx[1] && b == idx[0])) {
+				continue
+			}
+			if be.Op == token.EQL {
+				eq = append(eq, m.Succs[0])
+			} else {
+				eq = append(eq, m.Succs[1])
+			}
+		}
+		reach := g.Reach([]*cfgx.Visit{cfgx.StartAt(g.Entry, 0)}, worker)
+		for _, r := range g.Returns() {
+			if _, isRet := r.AST.(*ast.ReturnStmt); !isRet || f.ClassifyReturn(r) == ir.RetError {
+				continue
+			}
+			v, shortcut := reach[r]
+			if !shortcut {
+				continue
+			}
+			n++
+			c.VisitGraph(f)
+			ob := c.Ob(f, "rebase-skipped-only-for-equal-indices", r.Pos())
+			if len(eq) > 0 && f.OnlyVia(r, eq) {
+				ob.OK("behind the equality of the two indices")
+			} else {
+				ob.Bad(c.Witness(v), "%s returns success at %s without rebasing, on a path that did not establish that the two chain indices are equal (height and id): between two blocks of the same height on different forks the set keeps the source fork's proofs", f.Name(), c.P.Pos(r.Pos()))
+			}
+		}
+	}
+	if n == 0 {
+		ir.Fail("no rebase shortcut found (a function taking two chain indices that returns early)")
 	}
 }
